@@ -13,6 +13,7 @@ mod known;
 mod linz;
 #[cfg(feature = "arc")]
 mod locksim;
+mod modsim;
 mod rng;
 #[cfg(feature = "arc")]
 mod sched;
@@ -168,6 +169,7 @@ fn replay_doc(doc: &Value) -> (Option<(String, String)>, u64) {
             (v.map(|v| (v.class, v.detail)), d)
         }
         "histsim" => histsim::replay(doc),
+        "modsim" => modsim::replay(doc),
         other => {
             eprintln!("unknown engine in replay file (or not built into this binary): {other}");
             std::process::exit(2);
@@ -292,6 +294,45 @@ fn main() {
                 components(),
                 vec![
                     "the reference model implements the documented unwinding semantics; its agreement with koto on error-free executions is re-checked on every run (disagreement there is a harness error, exit 2)".into(),
+                ],
+                extra,
+            );
+            finish(&cfg, &res, ev, &args.evidence);
+        }
+        "modsim-show" => {
+            modsim::show(args.rest[0].parse().expect("run seed"));
+        }
+        "modsim" => {
+            let cfg = CampaignConfig {
+                engine: "modsim",
+                property: "C18",
+                base_seed: args.seed,
+                runs: args.runs.unwrap_or(if quick { 15_000 } else { 1_500_000 }),
+                max_seconds: args.seconds.unwrap_or(if quick { 60.0 } else { 900.0 }),
+                threads: args.threads,
+                keep_going: args.keep_going,
+                digest_file: args.digests.clone(),
+                replay_dir: args.replay_dir.clone(),
+            };
+            report_known_findings("modsim", "C18", &known);
+            let (regress_n, regress_v) = run_regressions("modsim", "C18", &args.regress_dir);
+            let mut res = campaign::run_campaign(&cfg, |_t| {
+                Box::new(modsim::ModWorker::new(known.clone())) as Box<dyn Worker>
+            });
+            res.violations.extend(regress_v);
+            let mut extra = Map::new();
+            extra.insert("regression_replays".into(), json!(regress_n));
+            let ev = campaign::evidence_part(
+                &cfg,
+                &res,
+                &args.tier,
+                "exploration",
+                "one run = one generated module graph (2-6 modules; DAGs, diamonds, cycles; file / directory / both forms; fault points, permanent failures and disk faults placed at modules) written to a scratch directory, plus a host history of 2-7 operations on one runtime (main scripts importing subsets in every import form incl. retries in the same scope, lazily importing exported functions, heal = rewrite a module file, clear_module_cache) with transient faults at seeded fault points; evaluations = host operations; non-trivial = at least one import failed somewhere; distinct = distinct sets of cache events (cache hit, module completed/failed by class, cycle, failure caught in script) x disk forms",
+                "import operations",
+                components(),
+                vec![
+                    "the reference model is the documented contract: resolution order, run-once, cycle errors, rollback, re-import after failure, clear_module_cache => recompile and re-run".into(),
+                    "healing by rewriting a file whose chunk is already in the loader takes effect after clear_module_cache (documented); the generator never breaks a file after it was loaded".into(),
                 ],
                 extra,
             );
